@@ -125,17 +125,22 @@ def actualDatatypeOk (l : Lit) (rule : String) : Bool :=
   else if rule = xsd "time" then (match l.val with | .other => true | _ => false)
   else true
 
+/-- the test of `DatatypeConstraintComponent.evaluate` on one literal -/
+def datatypeOkB (l : Lit) (r : String) : Bool :=
+  if l.dt = r then (if l.ill then false else actualDatatypeOk l r)
+  else if Term.iri r = rdfsLiteral then true
+  else if Term.iri r = rdfsDatatype ∧ l.dt ≠ "" then true
+  else if l.dt = "" ∧ l.lang = "" ∧ r = xsd "string" then actualDatatypeOk l r
+  else if r = rdfLangString ∧ l.lang ≠ "" then actualDatatypeOk l r
+  else false
+
+def datatypeTest (v rule : Term) : Bool :=
+  match v, rule with
+  | .lit l, .iri r => datatypeOkB l r
+  | _, _ => false
+
 def evalDatatype (s : Shape) (fv : FV) (rule : Term) : List Result :=
-  perValue s .datatype fv fun _ v =>
-    match v, rule with
-    | .lit l, .iri r =>
-      if l.dt = r then (if l.ill then false else actualDatatypeOk l r)
-      else if rule = rdfsLiteral then true
-      else if rule = rdfsDatatype ∧ l.dt ≠ "" then true
-      else if l.dt = "" ∧ l.lang = "" ∧ r = xsd "string" then actualDatatypeOk l r
-      else if r = rdfLangString ∧ l.lang ≠ "" then actualDatatypeOk l r
-      else false
-    | _, _ => false
+  perValue s .datatype fv fun _ v => datatypeTest v rule
 
 def evalNodeKind (s : Shape) (fv : FV) (rule : Term) : List Result :=
   perValue s .nodeKind fv fun _ v =>
@@ -153,16 +158,17 @@ def evalMaxCount (s : Shape) (fv : FV) (n : Int) : List Result :=
 
 def isStrVal (l : Lit) : Bool := match l.val with | .str => true | _ => false
 
+/-- the test of the value-range components on one value node and one bound -/
+def rangeOk (test : Int → Bool) (v b : Term) : Bool :=
+  match v, b with
+  | .lit lv, .lit lb =>
+    if isStrVal lb ≠ isStrVal lv then false
+    else cmpFlag lv lb test
+  | _, _ => false
+
 /-- the four value-range components: `test c` is applied to `compare_literal(v, bound)` -/
 def evalRange (s : Shape) (k : CKind) (fv : FV) (bounds : List Term) (test : Int → Bool) : List Result :=
-  bounds.flatMap fun b => perValue s k fv fun _ v =>
-    match v, b with
-    | .lit lv, .lit lb =>
-      if isStrVal lb ≠ isStrVal lv then false
-      else match compareLiteral lv lb with
-        | some c => test c
-        | none => false
-    | _, _ => false
+  bounds.flatMap fun b => perValue s k fv fun _ v => rangeOk test v b
 
 /-- `value_node_to_string` -/
 def valueNodeToString : Term → String
@@ -239,6 +245,12 @@ def evalDisjoint (s : Shape) (dg : Graph) (fv : FV) (props : List Term) : List R
     let cmp := dedup (dg.objects f p)
     (vs.filter (· ∈ cmp)).map fun v => mkResult s .disjoint f (some v)
 
+/-- the test of sh:lessThan / sh:lessThanOrEquals on one (value, compare value) pair -/
+def pairOk (test : Int → Bool) (v c : Term) : Bool :=
+  match v, c with
+  | .lit lv, .lit lc => cmpFlag lv lc test
+  | _, _ => false
+
 /-- sh:lessThan / sh:lessThanOrEquals: one result per (value, compare value) pair that is not ordered -/
 def evalLessThan (s : Shape) (k : CKind) (dg : Graph) (fv : FV) (props : List Term) (test : Int → Bool) :
     Except Failure (List Result) :=
@@ -246,10 +258,7 @@ def evalLessThan (s : Shape) (k : CKind) (dg : Graph) (fv : FV) (props : List Te
   .ok (props.flatMap fun p => fv.flatMap fun (f, vs) =>
     let cmp := dedup (dg.objects f p)
     vs.flatMap fun v => cmp.filterMap fun c =>
-      let ok := match v, c with
-        | .lit lv, .lit lc => (match compareLiteral lv lc with | some r => test r | none => false)
-        | _, _ => false
-      if ok then none else some (mkResult s k f (some v)))
+      if pairOk test v c then none else some (mkResult s k f (some v)))
 
 def evalHasValue (s : Shape) (fv : FV) (vals : List Term) : List Result :=
   vals.flatMap fun hv => fv.filterMap fun (f, vs) =>
